@@ -63,7 +63,11 @@ def run(ck):
   maxperm = 6 if ck.tier == 'quick' else 120
   lines, meta = [], []
   for _ in range(n):
-    d = rtlgen.generate(rng, max_blocks=6, max_regs=5, min_regs=1, with_children=(rng.random() < 0.5))
+    if rng.random() < 0.2:
+      # many registers, one (mostly branchy) update_ff block each: exercises the meta-block packing of Mamba2020
+      d = rtlgen.generate(rng, max_blocks=4, max_regs=14, min_regs=8, with_children=(rng.random() < 0.3), many_wires=True)
+    else:
+      d = rtlgen.generate(rng, max_blocks=6, max_regs=5, min_regs=1, with_children=(rng.random() < 0.5))
     src = d.source()
     cls = rtlgen.load_class(ck.workdir, d)
     cycles = rtlgen.gen_inputs(rng, d, rng.randint(6, 10))
@@ -77,6 +81,7 @@ def run(ck):
       runs.append((flow, [e[1] for e in rs.schedule_entries()], rs.ff_entries(), tr))
     comb_order = runs[1][1]
     perms = list(itertools.permutations(ff_ids)) if len(ff_ids) <= 4 else [tuple(rng.sample(ff_ids, len(ff_ids))) for _ in range(24)]
+    if len(ff_ids) > 6: perms = perms[:3]
     rng.shuffle(perms)
     for perm in perms[:maxperm]:
       tr, leaks = run_with_probes(cls, d, list(perm), cycles)
